@@ -498,6 +498,8 @@ def reconfigure(
 
     If *key* is provided, triples are sorted according to the key.
     """
+    if top is None:
+        top = g.top  # an implicit top must survive the sorting of triples
     p = copy.deepcopy(g)
     for epilist in p.epidata.values():
         epilist[:] = [
